@@ -75,7 +75,9 @@ def prep(vendor, sizes, bound, n_cvrs, index_kind="range", used_before=False):
     m = make_manifest(vendor, sizes, index_kind)
     with warnings.catch_warnings():
         warnings.simplefilter("ignore")
-        if used_before:  # the same raw DataFrame object was prepared before, for a larger bound
+        if used_before == "exact":  # the same raw DataFrame object was prepared before, with the bound equal to its size
+            (Dominion if vendor == "dominion" else Hart).prep_manifest(m, sum(sizes), 0)
+        elif used_before:  # ... or for a larger bound
             (Dominion if vendor == "dominion" else Hart).prep_manifest(m, bound + 2, 0)
         if vendor == "dominion":
             return Dominion.prep_manifest(m, bound, n_cvrs)
@@ -262,9 +264,9 @@ def run_shard(sh, rec):
                             rec.violate(key.replace("C08|", "C17|"), what, {"kind": "cvrs", "vendor": vendor, "layout": list(layout), "sample": list(sample)})
         return
     _, vendor, sizes, tier = sh
-    for extra, index_kind in ((0, "range"), (1, "range"), (2, "range"), (0, "reversed"), (0, "shifted"), (1, "reversed"), (0, "used"), (2, "used")):
+    for extra, index_kind in ((0, "range"), (1, "range"), (2, "range"), (0, "reversed"), (0, "shifted"), (1, "reversed"), (0, "used"), (2, "used"), (1, "used-exact"), (2, "used-exact")):
         rec.state()
-        used = index_kind == "used"
+        used = {"used": True, "used-exact": "exact"}.get(index_kind, False)
         v, man = judge_prep(vendor, sizes, extra, "range" if used else index_kind, used)
         if used:
             rec.vac("raw_manifest_object_prepared_twice")
@@ -340,7 +342,7 @@ def run_case(case):
         return [(k.replace("C08|", "C17|"), w) for k, w in c08.judge_vendor(case["vendor"], tuple(case["layout"]), case["sample"])]
     sizes = tuple(case["sizes"])
     ik = case.get("index_kind", "range")
-    v, man = judge_prep(case["vendor"], sizes, case["extra"], "range" if ik == "used" else ik, ik == "used")
+    v, man = judge_prep(case["vendor"], sizes, case["extra"], "range" if ik.startswith("used") else ik, {"used": True, "used-exact": "exact"}.get(ik, False))
     if case["kind"] == "prep" or man is None:
         return v
     lv = judge_lookup(case["vendor"], sizes, case["extra"], man, tuple(case["sample"]), bool(case.get("derived")))
